@@ -382,8 +382,8 @@ PROPS["C14"] = {
 }
 
 PROPS["C01"] = {
-    "lean_modules": ["AvroModel.Props.C01"],
-    "required_theorems": ["record_roundtrip", "record_exact", "two_records", "blocks_partition", "flush_leaves_nothing", "file_roundtrip", "value_roundtrip", "value_roundtrip_exact", "value_roundtrip_spec", "norm_idempotent"],
+    "lean_modules": ["AvroModel.Props.C01", "AvroModel.Props.C01b"],
+    "required_theorems": ["record_roundtrip", "record_exact", "two_records", "blocks_partition", "flush_leaves_nothing", "file_roundtrip", "value_roundtrip", "value_roundtrip_exact", "value_roundtrip_spec", "norm_idempotent", "typed_codec_exists", "typed_roundtrip"],
     "harness": [("E2E", "C01")],
     "level_text": "Proof in layers that are composed formally. (1) records: record_roundtrip / record_exact - Codec.Read of what "
                   "Codec.Write appended, followed by anything, delivers the written datum's value and the exact rest, for every codec tree, "
@@ -400,7 +400,7 @@ PROPS["C01"] = {
                   "all three codecs, block sizes 0..2^14, random flush patterns, zero-width and dense blocks; ORACLE independent of the codec "
                   "model: normSpec applied to the value written and to the value delivered must agree in number, order and value; the model "
                   "round trip is checked against the implementation separately (correspondence).",
-    "level_note": "Trusted: Lean kernel; EnvLaws (float32<->float64 conversion exact, RFC 3339 format/parse inverse - proved for the time model in C18/C19 - as hypotheses about the abstract Env); the tie buildCodec(schemaForType T) = fieldCodec T is checked by rfl on concrete types and by the differential run, not proved in general; differential tie per layer + end-to-end run. Known findings D27, D30, D32 (round-trip deviations, keyed by driver tags).",
+    "level_note": "Trusted: Lean kernel; EnvLaws (float32<->float64 conversion exact, RFC 3339 format/parse inverse - proved for the time model in C18/C19 - as hypotheses about the abstract Env); typed_roundtrip (Props/C01b.lean) removes the codec hypothesis: for every Go type of the fragment Frag (scalars, strings, bytes, slices, maps, pointers, structs with distinct encoded names incl. skipped fields, time.Time, null.*) the codec built from the generated schema IS fieldCodec T (TypeCodec.built_is_fieldCodec), so the value read back equals the value written up to normSpec and the recorded deviations; skipped fields (unexported, json/bq \"-\") are not part of the data and read back as zero; differential tie per layer + end-to-end run. Known findings D27, D30, D32 (round-trip deviations, keyed by driver tags).",
     "rule": "Random struct types (bool, ints, floats, string, []byte, time.Time, null.*, slices, maps, pointers, nested structs, json/omitempty tags), "
             "0-9 records per file with nulls following non-nulls, boundary values, NaN/Inf/-0, nil/empty collections, nil pointers at every level.",
     "trusted": CODEC_TRUST,
